@@ -650,6 +650,130 @@ static const struct inv_s invs[] = {
 	{"dsort", "p-line-d-ib", {IB(F_D), NULL}, IN_D},
 	{"dsort", "p-line-y2-ib", {IB(F_Y2), NULL}, IN_Y2},
 	{"dsort", "p-line-y1-bi", {BI(F_Y1), NULL}, IN_Y1},
+
+	/* ---- partially specified TIMES under --base given as a date, a date-time or an ISO week date:
+	 * S = seconds only, MS = %M:%S, H = hour only, IP = %I%p, N = %N, SN = %S.%N; the missing hour,
+	 * minute ... come from the base (00 for a base without a time), never from the clock.
+	 * dconv's argument position carries the full product kinds x base forms, every other position
+	 * all kinds with the base forms rotating; generated list, appended at the end.  (A bare number,
+	 * kinds S H N, is not accepted as dgrep expression operand: no such invocations.) */
+	{"dconv", "t-arg-S-d", {"--base", "2012-03-01", "-i", "%S", "56", "-f", "%FT%T.%N", NULL}, NULL},
+	{"dconv", "t-arg-S-dt", {"-i", "%S", "--base", "2012-03-01T10:20:30", "56", "-f", "%FT%T.%N", NULL}, NULL},
+	{"dconv", "t-arg-S-w", {"--base", "2012-W09-4", "-i", "%S", "56", "-f", "%FT%T.%N", NULL}, NULL},
+	{"dconv", "t-arg-MS-d", {"-i", "%M:%S", "--base", "2012-03-01", "34:56", "-f", "%FT%T.%N", NULL}, NULL},
+	{"dconv", "t-arg-MS-dt", {"--base", "2012-03-01T10:20:30", "-i", "%M:%S", "34:56", "-f", "%FT%T.%N", NULL}, NULL},
+	{"dconv", "t-arg-MS-w", {"-i", "%M:%S", "--base", "2012-W09-4", "34:56", "-f", "%FT%T.%N", NULL}, NULL},
+	{"dconv", "t-arg-H-d", {"--base", "2012-03-01", "-i", "%H", "12", "-f", "%FT%T.%N", NULL}, NULL},
+	{"dconv", "t-arg-H-dt", {"-i", "%H", "--base", "2012-03-01T10:20:30", "12", "-f", "%FT%T.%N", NULL}, NULL},
+	{"dconv", "t-arg-H-w", {"--base", "2012-W09-4", "-i", "%H", "12", "-f", "%FT%T.%N", NULL}, NULL},
+	{"dconv", "t-arg-IP-d", {"-i", "%I%p", "--base", "2012-03-01", "01PM", "-f", "%FT%T.%N", NULL}, NULL},
+	{"dconv", "t-arg-IP-dt", {"--base", "2012-03-01T10:20:30", "-i", "%I%p", "01PM", "-f", "%FT%T.%N", NULL}, NULL},
+	{"dconv", "t-arg-IP-w", {"-i", "%I%p", "--base", "2012-W09-4", "01PM", "-f", "%FT%T.%N", NULL}, NULL},
+	{"dconv", "t-arg-N-d", {"--base", "2012-03-01", "-i", "%N", "123456789", "-f", "%FT%T.%N", NULL}, NULL},
+	{"dconv", "t-arg-N-dt", {"-i", "%N", "--base", "2012-03-01T10:20:30", "123456789", "-f", "%FT%T.%N", NULL}, NULL},
+	{"dconv", "t-arg-N-w", {"--base", "2012-W09-4", "-i", "%N", "123456789", "-f", "%FT%T.%N", NULL}, NULL},
+	{"dconv", "t-arg-SN-d", {"-i", "%S.%N", "--base", "2012-03-01", "56.123456789", "-f", "%FT%T.%N", NULL}, NULL},
+	{"dconv", "t-arg-SN-dt", {"--base", "2012-03-01T10:20:30", "-i", "%S.%N", "56.123456789", "-f", "%FT%T.%N", NULL}, NULL},
+	{"dconv", "t-arg-SN-w", {"-i", "%S.%N", "--base", "2012-W09-4", "56.123456789", "-f", "%FT%T.%N", NULL}, NULL},
+	{"dconv", "t-stdin-S-d", {"--base", "2012-03-01", "-i", "%S", "-f", "%T", NULL}, "56\n"},
+	{"dconv", "t-stdin-MS-dt", {"--base", "2012-03-01T10:20:30", "-i", "%M:%S", "-f", "%T", NULL}, "34:56\n"},
+	{"dconv", "t-stdin-H-w", {"--base", "2012-W09-4", "-i", "%H", "-f", "%T", NULL}, "12\n"},
+	{"dconv", "t-stdin-IP-d", {"--base", "2012-03-01", "-i", "%I%p", "-f", "%T", NULL}, "01PM\n"},
+	{"dconv", "t-stdin-N-dt", {"--base", "2012-03-01T10:20:30", "-i", "%N", "-f", "%T", NULL}, "123456789\n"},
+	{"dconv", "t-stdin-SN-w", {"--base", "2012-W09-4", "-i", "%S.%N", "-f", "%T", NULL}, "56.123456789\n"},
+	{"dconv", "t-sed-S-dt", {"-S", "-i", "%S", "--base", "2012-03-01T10:20:30", "-f", "%T", NULL}, "x 56 y\n"},
+	{"dconv", "t-sed-MS-w", {"-S", "-i", "%M:%S", "--base", "2012-W09-4", "-f", "%T", NULL}, "x 34:56 y\n"},
+	{"dconv", "t-sed-H-d", {"-S", "-i", "%H", "--base", "2012-03-01", "-f", "%T", NULL}, "x 12 y\n"},
+	{"dconv", "t-sed-IP-dt", {"-S", "-i", "%I%p", "--base", "2012-03-01T10:20:30", "-f", "%T", NULL}, "x 01PM y\n"},
+	{"dconv", "t-sed-N-w", {"-S", "-i", "%N", "--base", "2012-W09-4", "-f", "%T", NULL}, "x 123456789 y\n"},
+	{"dconv", "t-sed-SN-d", {"-S", "-i", "%S.%N", "--base", "2012-03-01", "-f", "%T", NULL}, "x 56.123456789 y\n"},
+	{"dadd", "t-arg-S-w", {"--base", "2012-W09-4", "-i", "%S", "56", "+1h", "-f", "%T", NULL}, NULL},
+	{"dadd", "t-arg-MS-d", {"--base", "2012-03-01", "-i", "%M:%S", "34:56", "+1h", "-f", "%T", NULL}, NULL},
+	{"dadd", "t-arg-H-dt", {"--base", "2012-03-01T10:20:30", "-i", "%H", "12", "+1h", "-f", "%T", NULL}, NULL},
+	{"dadd", "t-arg-IP-w", {"--base", "2012-W09-4", "-i", "%I%p", "01PM", "+1h", "-f", "%T", NULL}, NULL},
+	{"dadd", "t-arg-N-d", {"--base", "2012-03-01", "-i", "%N", "123456789", "+1h", "-f", "%T", NULL}, NULL},
+	{"dadd", "t-arg-SN-dt", {"--base", "2012-03-01T10:20:30", "-i", "%S.%N", "56.123456789", "+1h", "-f", "%T", NULL}, NULL},
+	{"dadd", "t-stdin-S-d", {"-i", "%S", "--base", "2012-03-01", "+1h", "-f", "%T", NULL}, "56\n"},
+	{"dadd", "t-stdin-MS-dt", {"-i", "%M:%S", "--base", "2012-03-01T10:20:30", "+1h", "-f", "%T", NULL}, "34:56\n"},
+	{"dadd", "t-stdin-H-w", {"-i", "%H", "--base", "2012-W09-4", "+1h", "-f", "%T", NULL}, "12\n"},
+	{"dadd", "t-stdin-IP-d", {"-i", "%I%p", "--base", "2012-03-01", "+1h", "-f", "%T", NULL}, "01PM\n"},
+	{"dadd", "t-stdin-N-dt", {"-i", "%N", "--base", "2012-03-01T10:20:30", "+1h", "-f", "%T", NULL}, "123456789\n"},
+	{"dadd", "t-stdin-SN-w", {"-i", "%S.%N", "--base", "2012-W09-4", "+1h", "-f", "%T", NULL}, "56.123456789\n"},
+	{"ddiff", "t-ref-S-dt", {"--base", "2012-03-01T10:20:30", "-i", "%H:%M:%S", "-i", "%S", "56", "23:59:59", "-f", "%S", NULL}, NULL},
+	{"ddiff", "t-ref-MS-w", {"--base", "2012-W09-4", "-i", "%H:%M:%S", "-i", "%M:%S", "34:56", "23:59:59", "-f", "%S", NULL}, NULL},
+	{"ddiff", "t-ref-H-d", {"--base", "2012-03-01", "-i", "%H:%M:%S", "-i", "%H", "12", "23:59:59", "-f", "%S", NULL}, NULL},
+	{"ddiff", "t-ref-IP-dt", {"--base", "2012-03-01T10:20:30", "-i", "%H:%M:%S", "-i", "%I%p", "01PM", "23:59:59", "-f", "%S", NULL}, NULL},
+	{"ddiff", "t-ref-N-w", {"--base", "2012-W09-4", "-i", "%H:%M:%S", "-i", "%N", "123456789", "23:59:59", "-f", "%S", NULL}, NULL},
+	{"ddiff", "t-ref-SN-d", {"--base", "2012-03-01", "-i", "%H:%M:%S", "-i", "%S.%N", "56.123456789", "23:59:59", "-f", "%S", NULL}, NULL},
+	{"ddiff", "t-op-S-w", {"-i", "%H:%M:%S", "-i", "%S", "--base", "2012-W09-4", "00:00:00", "56", "-f", "%S", NULL}, NULL},
+	{"ddiff", "t-op-MS-d", {"-i", "%H:%M:%S", "-i", "%M:%S", "--base", "2012-03-01", "00:00:00", "34:56", "-f", "%S", NULL}, NULL},
+	{"ddiff", "t-op-H-dt", {"-i", "%H:%M:%S", "-i", "%H", "--base", "2012-03-01T10:20:30", "00:00:00", "12", "-f", "%S", NULL}, NULL},
+	{"ddiff", "t-op-IP-w", {"-i", "%H:%M:%S", "-i", "%I%p", "--base", "2012-W09-4", "00:00:00", "01PM", "-f", "%S", NULL}, NULL},
+	{"ddiff", "t-op-N-d", {"-i", "%H:%M:%S", "-i", "%N", "--base", "2012-03-01", "00:00:00", "123456789", "-f", "%S", NULL}, NULL},
+	{"ddiff", "t-op-SN-dt", {"-i", "%H:%M:%S", "-i", "%S.%N", "--base", "2012-03-01T10:20:30", "00:00:00", "56.123456789", "-f", "%S", NULL}, NULL},
+	{"ddiff", "t-stdin-S-d", {"--base", "2012-03-01", "-i", "%H:%M:%S", "-i", "%S", "00:00:00", "-f", "%S", NULL}, "56\n"},
+	{"ddiff", "t-stdin-MS-dt", {"--base", "2012-03-01T10:20:30", "-i", "%H:%M:%S", "-i", "%M:%S", "00:00:00", "-f", "%S", NULL}, "34:56\n"},
+	{"ddiff", "t-stdin-H-w", {"--base", "2012-W09-4", "-i", "%H:%M:%S", "-i", "%H", "00:00:00", "-f", "%S", NULL}, "12\n"},
+	{"ddiff", "t-stdin-IP-d", {"--base", "2012-03-01", "-i", "%H:%M:%S", "-i", "%I%p", "00:00:00", "-f", "%S", NULL}, "01PM\n"},
+	{"ddiff", "t-stdin-N-dt", {"--base", "2012-03-01T10:20:30", "-i", "%H:%M:%S", "-i", "%N", "00:00:00", "-f", "%S", NULL}, "123456789\n"},
+	{"ddiff", "t-stdin-SN-w", {"--base", "2012-W09-4", "-i", "%H:%M:%S", "-i", "%S.%N", "00:00:00", "-f", "%S", NULL}, "56.123456789\n"},
+	{"dgrep", "t-expr-MS-w", {"--base", "2012-W09-4", "-i", "%H:%M:%S", "-i", "%M:%S", ">=34:56", NULL}, "00:00:30\n10:30:00\n12:30:00\n13:30:00\n23:00:00\n"},
+	{"dgrep", "t-expr-IP-dt", {"--base", "2012-03-01T10:20:30", "-i", "%H:%M:%S", "-i", "%I%p", ">=01PM", NULL}, "00:00:30\n10:30:00\n12:30:00\n13:30:00\n23:00:00\n"},
+	{"dgrep", "t-expr-SN-d", {"--base", "2012-03-01", "-i", "%H:%M:%S", "-i", "%S.%N", ">=56.123456789", NULL}, "00:00:30\n10:30:00\n12:30:00\n13:30:00\n23:00:00\n"},
+	{"dgrep", "t-lines-S-w", {"-i", "%S", "-i", "%H:%M:%S", "--base", "2012-W09-4", ">=10:25:00", NULL}, "56\nfoo\n"},
+	{"dgrep", "t-lines-MS-d", {"-i", "%M:%S", "-i", "%H:%M:%S", "--base", "2012-03-01", ">=10:25:00", NULL}, "34:56\nfoo\n"},
+	{"dgrep", "t-lines-H-dt", {"-i", "%H", "-i", "%H:%M:%S", "--base", "2012-03-01T10:20:30", ">=10:25:00", NULL}, "12\nfoo\n"},
+	{"dgrep", "t-lines-IP-w", {"-i", "%I%p", "-i", "%H:%M:%S", "--base", "2012-W09-4", ">=10:25:00", NULL}, "01PM\nfoo\n"},
+	{"dgrep", "t-lines-N-d", {"-i", "%N", "-i", "%H:%M:%S", "--base", "2012-03-01", ">=10:25:00", NULL}, "123456789\nfoo\n"},
+	{"dgrep", "t-lines-SN-dt", {"-i", "%S.%N", "-i", "%H:%M:%S", "--base", "2012-03-01T10:20:30", ">=10:25:00", NULL}, "56.123456789\nfoo\n"},
+	{"dround", "t-arg-S-d", {"--base", "2012-03-01", "-i", "%S", "56", "30m", "-f", "%T", NULL}, NULL},
+	{"dround", "t-arg-MS-dt", {"--base", "2012-03-01T10:20:30", "-i", "%M:%S", "34:56", "30m", "-f", "%T", NULL}, NULL},
+	{"dround", "t-arg-H-w", {"--base", "2012-W09-4", "-i", "%H", "12", "30m", "-f", "%T", NULL}, NULL},
+	{"dround", "t-arg-IP-d", {"--base", "2012-03-01", "-i", "%I%p", "01PM", "30m", "-f", "%T", NULL}, NULL},
+	{"dround", "t-arg-N-dt", {"--base", "2012-03-01T10:20:30", "-i", "%N", "123456789", "30m", "-f", "%T", NULL}, NULL},
+	{"dround", "t-arg-SN-w", {"--base", "2012-W09-4", "-i", "%S.%N", "56.123456789", "30m", "-f", "%T", NULL}, NULL},
+	{"dround", "t-stdin-S-dt", {"-i", "%S", "--base", "2012-03-01T10:20:30", "30m", "-f", "%T", NULL}, "56\n"},
+	{"dround", "t-stdin-MS-w", {"-i", "%M:%S", "--base", "2012-W09-4", "30m", "-f", "%T", NULL}, "34:56\n"},
+	{"dround", "t-stdin-H-d", {"-i", "%H", "--base", "2012-03-01", "30m", "-f", "%T", NULL}, "12\n"},
+	{"dround", "t-stdin-IP-dt", {"-i", "%I%p", "--base", "2012-03-01T10:20:30", "30m", "-f", "%T", NULL}, "01PM\n"},
+	{"dround", "t-stdin-N-w", {"-i", "%N", "--base", "2012-W09-4", "30m", "-f", "%T", NULL}, "123456789\n"},
+	{"dround", "t-stdin-SN-d", {"-i", "%S.%N", "--base", "2012-03-01", "30m", "-f", "%T", NULL}, "56.123456789\n"},
+	{"dseq", "t-first-S-w", {"--base", "2012-W09-4", "-i", "%H:%M:%S", "-i", "%S", "56", "6h", "23:59:59", "-f", "%T", NULL}, NULL},
+	{"dseq", "t-first-MS-d", {"--base", "2012-03-01", "-i", "%H:%M:%S", "-i", "%M:%S", "34:56", "6h", "23:59:59", "-f", "%T", NULL}, NULL},
+	{"dseq", "t-first-H-dt", {"--base", "2012-03-01T10:20:30", "-i", "%H:%M:%S", "-i", "%H", "12", "6h", "23:59:59", "-f", "%T", NULL}, NULL},
+	{"dseq", "t-first-IP-w", {"--base", "2012-W09-4", "-i", "%H:%M:%S", "-i", "%I%p", "01PM", "6h", "23:59:59", "-f", "%T", NULL}, NULL},
+	{"dseq", "t-first-N-d", {"--base", "2012-03-01", "-i", "%H:%M:%S", "-i", "%N", "123456789", "6h", "23:59:59", "-f", "%T", NULL}, NULL},
+	{"dseq", "t-first-SN-dt", {"--base", "2012-03-01T10:20:30", "-i", "%H:%M:%S", "-i", "%S.%N", "56.123456789", "6h", "23:59:59", "-f", "%T", NULL}, NULL},
+	{"dseq", "t-last-S-d", {"-i", "%H:%M:%S", "-i", "%S", "--base", "2012-03-01", "00:00:00", "6h", "56", "-f", "%T", NULL}, NULL},
+	{"dseq", "t-last-MS-dt", {"-i", "%H:%M:%S", "-i", "%M:%S", "--base", "2012-03-01T10:20:30", "00:00:00", "6h", "34:56", "-f", "%T", NULL}, NULL},
+	{"dseq", "t-last-H-w", {"-i", "%H:%M:%S", "-i", "%H", "--base", "2012-W09-4", "00:00:00", "6h", "12", "-f", "%T", NULL}, NULL},
+	{"dseq", "t-last-IP-d", {"-i", "%H:%M:%S", "-i", "%I%p", "--base", "2012-03-01", "00:00:00", "6h", "01PM", "-f", "%T", NULL}, NULL},
+	{"dseq", "t-last-N-dt", {"-i", "%H:%M:%S", "-i", "%N", "--base", "2012-03-01T10:20:30", "00:00:00", "6h", "123456789", "-f", "%T", NULL}, NULL},
+	{"dseq", "t-last-SN-w", {"-i", "%H:%M:%S", "-i", "%S.%N", "--base", "2012-W09-4", "00:00:00", "6h", "56.123456789", "-f", "%T", NULL}, NULL},
+	{"dtest", "t-op1-S-dt", {"--base", "2012-03-01T10:20:30", "-i", "%H:%M:%S", "-i", "%S", "--cmp", "56", "10:25:00", NULL}, NULL},
+	{"dtest", "t-op1-MS-w", {"--base", "2012-W09-4", "-i", "%H:%M:%S", "-i", "%M:%S", "--cmp", "34:56", "10:25:00", NULL}, NULL},
+	{"dtest", "t-op1-H-d", {"--base", "2012-03-01", "-i", "%H:%M:%S", "-i", "%H", "--cmp", "12", "10:25:00", NULL}, NULL},
+	{"dtest", "t-op1-IP-dt", {"--base", "2012-03-01T10:20:30", "-i", "%H:%M:%S", "-i", "%I%p", "--cmp", "01PM", "10:25:00", NULL}, NULL},
+	{"dtest", "t-op1-N-w", {"--base", "2012-W09-4", "-i", "%H:%M:%S", "-i", "%N", "--cmp", "123456789", "10:25:00", NULL}, NULL},
+	{"dtest", "t-op1-SN-d", {"--base", "2012-03-01", "-i", "%H:%M:%S", "-i", "%S.%N", "--cmp", "56.123456789", "10:25:00", NULL}, NULL},
+	{"dtest", "t-op2-S-w", {"-i", "%H:%M:%S", "-i", "%S", "--base", "2012-W09-4", "--cmp", "10:25:00", "56", NULL}, NULL},
+	{"dtest", "t-op2-MS-d", {"-i", "%H:%M:%S", "-i", "%M:%S", "--base", "2012-03-01", "--cmp", "10:25:00", "34:56", NULL}, NULL},
+	{"dtest", "t-op2-H-dt", {"-i", "%H:%M:%S", "-i", "%H", "--base", "2012-03-01T10:20:30", "--cmp", "10:25:00", "12", NULL}, NULL},
+	{"dtest", "t-op2-IP-w", {"-i", "%H:%M:%S", "-i", "%I%p", "--base", "2012-W09-4", "--cmp", "10:25:00", "01PM", NULL}, NULL},
+	{"dtest", "t-op2-N-d", {"-i", "%H:%M:%S", "-i", "%N", "--base", "2012-03-01", "--cmp", "10:25:00", "123456789", NULL}, NULL},
+	{"dtest", "t-op2-SN-dt", {"-i", "%H:%M:%S", "-i", "%S.%N", "--base", "2012-03-01T10:20:30", "--cmp", "10:25:00", "56.123456789", NULL}, NULL},
+	{"dzone", "t-arg-S-d", {"--base", "2012-03-01", "-i", "%S", "Europe/Berlin", "Asia/Kolkata", "56", NULL}, NULL},
+	{"dzone", "t-arg-MS-dt", {"--base", "2012-03-01T10:20:30", "-i", "%M:%S", "Europe/Berlin", "Asia/Kolkata", "34:56", NULL}, NULL},
+	{"dzone", "t-arg-H-w", {"--base", "2012-W09-4", "-i", "%H", "Europe/Berlin", "Asia/Kolkata", "12", NULL}, NULL},
+	{"dzone", "t-arg-IP-d", {"--base", "2012-03-01", "-i", "%I%p", "Europe/Berlin", "Asia/Kolkata", "01PM", NULL}, NULL},
+	{"dzone", "t-arg-N-dt", {"--base", "2012-03-01T10:20:30", "-i", "%N", "Europe/Berlin", "Asia/Kolkata", "123456789", NULL}, NULL},
+	{"dzone", "t-arg-SN-w", {"--base", "2012-W09-4", "-i", "%S.%N", "Europe/Berlin", "Asia/Kolkata", "56.123456789", NULL}, NULL},
+	{"dsort", "t-lines-S-dt", {"--base", "2012-03-01T10:20:30", "-i", "%S", NULL}, "56 b\n56 a\n"},
+	{"dsort", "t-lines-MS-w", {"--base", "2012-W09-4", "-i", "%M:%S", NULL}, "34:56 b\n34:56 a\n"},
+	{"dsort", "t-lines-H-d", {"--base", "2012-03-01", "-i", "%H", NULL}, "12 b\n12 a\n"},
+	{"dsort", "t-lines-IP-dt", {"--base", "2012-03-01T10:20:30", "-i", "%I%p", NULL}, "01PM b\n01PM a\n"},
+	{"dsort", "t-lines-N-w", {"--base", "2012-W09-4", "-i", "%N", NULL}, "123456789 b\n123456789 a\n"},
+	{"dsort", "t-lines-SN-d", {"--base", "2012-03-01", "-i", "%S.%N", NULL}, "56.123456789 b\n56.123456789 a\n"},
 };
 #define NINV_ALL	((int)(sizeof(invs) / sizeof(*invs)))
 
